@@ -1,9 +1,12 @@
 /-
   C10 — Decorated functions run forward, then f, then the inverses in reverse order.
-  Property theorems about CM.Model.Loopback (tied to /repo by the S-CTX correspondence and reference).
+  Property theorems about CM.Model.Loopback (tied to /repo by the S-CTX correspondence and reference) and, at the node level,
+  about `EdgesBag.loopback` / `Context.reverse` as modelled in CM.Model.Bag (tied to /repo by S-NODE: every real loopback call
+  is replayed on the model).
 -/
 import CM.Model.Loopback
 import CM.Proofs.StackLemmas
+import CM.Proofs.BagReverse
 namespace CM.C10
 open CM
 
@@ -134,5 +137,76 @@ example :
     (match loopback [exShift, exScale] "F" ["x"] ["x"] ["x"] true with
       | .ok [(_, .term (.app "unshift" [.app "unscale" [.app "F" [.app "scale" [.app "shift" [.inp "x"], .const (.int 2)]], .const (.int 2)]]))] => true
       | _ => false) = true := by decide +kernel
+
+/-! ## Node level: `EdgesBag.loopback`, `BagContext.reverse`, `ChainContext.reverse` -/
+
+
+/-- the decorated graph (`EdgesBag.loopback`): the forward bag connected with the bag of `f`, and what its context returns -/
+theorem loopback_shape (b fb r : Bag) (h : b.loopbackWith fb = .ok r) :
+    ∃ state outs es opt nx, connectBags b fb = .ok state ∧
+      state.ctx.reverse state.outputs state.next = .ok (outs, es, opt, nx) ∧
+      r.outputs = outs ∧ r.edges = state.edges ++ es ∧ r.inputs = state.inputs := by
+  simp only [Bag.loopbackWith, bind, Except.bind] at h
+  split at h
+  · cases h
+  · rename_i state hst
+    split at h
+    · cases h
+    · rename_i rr hrev
+      obtain ⟨outs, es, opt, nx⟩ := rr
+      obtain ⟨rfl, _⟩ := mkBag_ok h
+      refine ⟨state, outs, es, opt, nx, hst, hrev, ?_, ?_, rfl⟩
+      · have hf : ∀ l : List BNode, l.filter (fun _ => false) = [] := fun l => by induction l <;> simp_all
+        simp [RawBag.core, RawBag.rule3, NameSet.empty, NameSet.mem, hf, addIdentities]
+      · have hf : ∀ l : List BNode, l.filter (fun _ => false) = [] := fun l => by induction l <;> simp_all
+        simp [RawBag.core, RawBag.rule3, NameSet.empty, NameSet.mem, hf, addIdentities]
+
+/-- **Node level: the outputs of a decorated function.**  The names `layer._decorate(...)(f)` can return are obtained from
+the outputs of `f` by the backward pass of the layers' contexts, the later layer first (`BCtx.backNames`); they depend on
+names only. -/
+theorem node_loopback_outputs (b fb r : Bag) (h : b.loopbackWith fb = .ok r) :
+    ∃ state, connectBags b fb = .ok state ∧ state.ctx.backNames (names state.outputs) = some (names r.outputs) := by
+  obtain ⟨state, outs, es, opt, nx, hst, hrev, ho, _, _⟩ := loopback_shape b fb r h
+  exact ⟨state, hst, ho ▸ reverse_names _ _ _ _ _ _ _ hrev⟩
+
+/-- **Node level: no inverse path, no output.**  Every output name of the decorated graph has an inverse path through the
+context of every layer: each layer either has an inverse field of that name or inherits the name backwards from the layers
+after it.  A name without such a path is not an output (asking for it raises `FieldError`): it is never returned un-inverted. -/
+theorem node_no_inverse_path_rejected (b fb r : Bag) (h : b.loopbackWith fb = .ok r) (x : String)
+    (hx : x ∈ names r.outputs) :
+    ∃ state, connectBags b fb = .ok state ∧ state.ctx.HasPath (names state.outputs) x := by
+  obtain ⟨state, hst, hn⟩ := node_loopback_outputs b fb r h
+  exact ⟨state, hst, backNames_path _ _ _ x hn hx⟩
+
+/-- **Node level: the backward pass adds only identity edges** (stitches from what came in to the backward inputs of a
+layer, pass-through clones for inherited names): every function of the decorated graph is an edge of the forward
+pipeline, of `f`, or of a layer's inverse fields, so each runs at most once per call (C03 `at_most_once`). -/
+theorem node_loopback_edges (b fb r : Bag) (h : b.loopbackWith fb = .ok r) :
+    ∃ state, connectBags b fb = .ok state ∧
+      ∀ e ∈ r.edges, e ∈ state.edges ∨ StitchOrPass e := by
+  obtain ⟨state, outs, es, opt, nx, hst, hrev, _, he, _⟩ := loopback_shape b fb r h
+  refine ⟨state, hst, fun e hmem => ?_⟩
+  rw [he] at hmem
+  rcases List.mem_append.1 hmem with h1 | h2
+  · exact .inl h1
+  · exact .inr (reverse_edges _ _ _ _ _ _ _ hrev e h2)
+
+/-- the later layer is reversed first: what reaches the earlier layers is what the later layer returns -/
+theorem node_reverse_order (p c : BCtx) (ns : List String) :
+    (BCtx.chain p c).backNames ns = (c.backNames ns).bind p.backNames := rfl
+
+/-- a layer that neither inverts nor inherits a name drops it, whatever came in; an earlier layer can only produce the name
+again through an inverse field of its own -/
+theorem node_layer_drops (p : BCtx) (inputs outputs : List BNode) (inherit : NameSet) (ns res : List String) (x : String)
+    (h : (BCtx.chain p (.bag inputs outputs inherit)).backNames ns = some res)
+    (hno : x ∉ names outputs) (hni : inherit.mem x = false) :
+    ∃ mid, x ∉ mid ∧ p.backNames mid = some res :=
+  chain_drops_unless_reinverted p inputs outputs inherit ns res x h hno hni
+
+/-- non-vacuity (a test): a layer inverting `a` and inheriting nothing, after a layer inheriting everything: from `[a, b]`
+only `a` comes out -/
+example :
+    (BCtx.chain (.bag [] [] .all) (.bag [⟨7, "a"⟩] [⟨8, "a"⟩] (.fin []))).backNames ["a", "b"] = some ["a"] := by
+  decide +kernel
 
 end CM.C10
